@@ -41,7 +41,7 @@ PROPS = {
         "exhaustive": True,
     },
     "C02": {
-        "theorems": [("GdslModel.Props.C02", "G.Un." + t) for t in ["sym_step", "sym_run", "no_panic", "count_symm", "connected_symm", "selfloop_degree", "edge_degree"]],
+        "theorems": [("GdslModel.Props.C02", "G.Un." + t) for t in ["sym_step", "sym_run", "no_panic", "count_symm", "connected_symm", "selfloop_degree", "edge_degree", "handshake", "handshake_run"]],
         "level_text": "Machine-checked proof (Lean 4) that the undirected edge operations keep the half-edge symmetry invariant after every prefix of every history (either endpoint as caller, self-loops, parallel edges), with the count/degree/is_connected corollaries; model tied to ungraph and sync_ungraph by exact correspondence (exhaustive small state space + random histories) and a symmetry oracle on the real iter() output.",
         "level_note": CORR_NOTE,
         "technique": "Lean 4 invariant proof by induction over histories + model/implementation correspondence (differential)",
